@@ -282,11 +282,47 @@ fn kernel_case_typed<F: Float>(inp: &Value, ft: &str, nns: &[&str], all_forms: b
     }
 }
 
+/// Builder histories: Kernel::params() followed by the setter calls of each history (method / kind / nn_algo, in the
+/// order given by the case); only what the resulting kernel holds is logged.
+fn kernel_histories<F: Float>(inp: &Value, ft: &str, out: &mut Vec<Value>) {
+    let rows = imat(&inp["pts"]);
+    let x: Array2<F> = points(&rows, inp);
+    let hists = match inp.get("hists").and_then(|h| h.as_array()) {
+        Some(h) => h,
+        None => return,
+    };
+    for (hi, h) in hists.iter().enumerate() {
+        let r = guarded(|| {
+            let mut p = Kernel::<F>::params();
+            for op in h.as_array().unwrap() {
+                p = match gets(op, "f") {
+                    "meth" => p.method(method_of::<F>(&op["m"])),
+                    "kind" => {
+                        let k = geti(op, "k") as usize;
+                        p.kind(if k == 0 { KernelType::Dense } else { KernelType::Sparse(k) })
+                    }
+                    "nn" => p.nn_algo(nn_of(gets(op, "nn"))),
+                    other => panic!("unknown setter {}", other),
+                };
+            }
+            let kern: Kernel<F> = p.transform(x.view());
+            let mut ev = owned_event("hist", "hist", ft, &kern, None, None);
+            ev.as_object_mut().unwrap().insert("hi".into(), json!(hi + 1));
+            ev
+        });
+        match r {
+            Ok(v) => out.push(v),
+            Err(msg) => out.push(json!({"ev": "panic", "at": "hist", "hi": hi + 1, "ft": ft, "msg": msg})),
+        }
+    }
+}
+
 fn kernel_case(inp: &Value) -> Vec<Value> {
     let k = geti(inp, "k");
     let mut out = vec![];
     let nns: Vec<&str> = if k == 0 { vec!["kd"] } else { vec!["kd", "lin", "ball"] };
     kernel_case_typed::<f64>(inp, "f64", &nns, true, &mut out);
+    kernel_histories::<f64>(inp, "f64", &mut out);
     kernel_case_typed::<f32>(inp, "f32", &nns[..1], false, &mut out);
     out.push(json!({"ev": "end"}));
     out
@@ -330,19 +366,21 @@ fn hier_typed<F: Float>(inp: &Value, ft: &str, out: &mut Vec<Value>) {
     let link = link_of(gets(inp, "link"));
     let base: Kernel<F> = base_kernel(inp);
     let n = base.size();
+    let set_crit = |h: HierarchicalCluster<F>, crit: &Value| -> HierarchicalCluster<F> {
+        match gets(crit, "t") {
+            "num" => h.num_clusters(geti(crit, "c") as usize),
+            "dist" => h.max_distance(F::cast(geti(crit, "tn") as f64 / geti(crit, "td") as f64)),
+            // threshold -ln(tn/td)
+            "lnrat" => h.max_distance(-F::cast(geti(crit, "tn") as f64 / geti(crit, "td") as f64).ln()),
+            // the dissimilarity given to similarities <= 1e-6
+            "floor" => h.max_distance(-F::cast(1e-6).ln()),
+            other => panic!("unknown criterion {}", other),
+        }
+    };
+    let empty = vec![];
+    let hists = inp.get("hists").and_then(|h| h.as_array()).unwrap_or(&empty);
     for (ci, crit) in geta(inp, "crits").iter().enumerate() {
-        let mk = || {
-            let h = HierarchicalCluster::<F>::default().with_method(link);
-            match gets(crit, "t") {
-                "num" => h.num_clusters(geti(crit, "c") as usize),
-                "dist" => h.max_distance(F::cast(geti(crit, "tn") as f64 / geti(crit, "td") as f64)),
-                // threshold -ln(tn/td)
-                "lnrat" => h.max_distance(-F::cast(geti(crit, "tn") as f64 / geti(crit, "td") as f64).ln()),
-                // the dissimilarity given to similarities <= 1e-6
-                "floor" => h.max_distance(-F::cast(1e-6).ln()),
-                other => panic!("unknown criterion {}", other),
-            }
-        };
+        let mk = || set_crit(HierarchicalCluster::<F>::default().with_method(link), crit);
         for form in ["kernel", "dataset"] {
             // the dataset calling form delegates to the kernel form: exercised for the first criterion only
             if form == "dataset" && ci > 0 {
@@ -357,16 +395,42 @@ fn hier_typed<F: Float>(inp: &Value, ft: &str, out: &mut Vec<Value>) {
                 match res {
                     Ok(ds) => {
                         let same = ds.records == base;
-                        json!({"ev": "clust", "ci": ci + 1, "form": form, "ft": ft, "ok": true, "err": "",
+                        json!({"ev": "clust", "ci": ci + 1, "hi": 0, "form": form, "ft": ft, "ok": true, "err": "",
                                "size": ds.records.size(), "same": same, "labels": tvec(ds.targets.iter())})
                     }
-                    Err(e) => json!({"ev": "clust", "ci": ci + 1, "form": form, "ft": ft, "ok": false, "err": e.to_string(),
+                    Err(e) => json!({"ev": "clust", "ci": ci + 1, "hi": 0, "form": form, "ft": ft, "ok": false, "err": e.to_string(),
                                      "size": 0, "same": false, "labels": []}),
                 }
             });
             match r {
                 Ok(v) => out.push(v),
                 Err(msg) => out.push(json!({"ev": "panic", "at": "clust", "ci": ci + 1, "form": form, "ft": ft, "msg": msg})),
+            }
+        }
+        // builder histories that end in (link, this criterion): default() followed by the listed setter calls
+        for (hi, h) in hists.iter().enumerate() {
+            if geti(h, "ci") as usize != ci + 1 {
+                continue;
+            }
+            let r = guarded(|| {
+                let mut b = HierarchicalCluster::<F>::default();
+                for op in geta(h, "ops") {
+                    b = match gets(op, "f") {
+                        "link" => b.with_method(link_of(gets(op, "link"))),
+                        "crit" => set_crit(b, &op["crit"]),
+                        other => panic!("unknown setter {}", other),
+                    };
+                }
+                match b.transform(base.clone()) {
+                    Ok(ds) => json!({"ev": "clust", "ci": ci + 1, "hi": hi + 1, "form": "hist", "ft": ft, "ok": true, "err": "",
+                                     "size": ds.records.size(), "same": ds.records == base, "labels": tvec(ds.targets.iter())}),
+                    Err(e) => json!({"ev": "clust", "ci": ci + 1, "hi": hi + 1, "form": "hist", "ft": ft, "ok": false, "err": e.to_string(),
+                                     "size": 0, "same": false, "labels": []}),
+                }
+            });
+            match r {
+                Ok(v) => out.push(v),
+                Err(msg) => out.push(json!({"ev": "panic", "at": "hist", "ci": ci + 1, "hi": hi + 1, "ft": ft, "msg": msg})),
             }
         }
     }
